@@ -15,7 +15,7 @@ One atom = one persistence event of the real code (one `vevent` call site, see
 | logical step | atoms, in order (db.go / value.go / memtable.go / levels.go) |
 |---|---|
 | commit | `valueLog.write`: one store per value ≥ threshold; if `numEntriesWritten` exceeds `ValueLogMaxEntries`: `doneWriting` (msync when SyncWrites, ftruncate) and `createVlogFile` (create+extend, header, zero); msync of the current vlog when SyncWrites. `ensureRoomForWrite`: if the memtable is full, push it to `imm`/`flushChan` and create the next `.mem` (create+extend, header, zero). `writeToLSM`: per entry store + zeroNextEntry, the end-of-transaction record, msync when SyncWrites. Then the commit is acknowledged. |
-| flush (flusher) | `CreateTable`: create+extend `.sst`, store, msync; (**no directory fsync** — finding F4; the variant `Cfg.dirSyncFix` inserts it); MANIFEST append, fsync; `mt.DecrRef` ⇒ `wal.Delete` = ftruncate(0) + unlink |
+| flush (flusher) | `CreateTable`: create+extend `.sst`, store, msync; directory fsync (the repair of finding F4; absent when `Cfg.dirSyncFix = false`); MANIFEST append, fsync; `mt.DecrRef` ⇒ `wal.Delete` = ftruncate(0) + unlink |
 | compaction | per output table create+extend, store, msync; `syncDir`; MANIFEST append (creates + deletes), fsync; per input table ftruncate(0) + unlink |
 
 `create p; extend p` and `truncate p 0; unlink p` are two system calls inside one library call
@@ -37,9 +37,11 @@ structure Txn where
 structure Cfg where
   syncWrites : Bool := true
   vlogMaxEntries : Nat := 1000
-  /-- the intended fix for F4: fsync a new `.mem` / `.vlog` file and the directory right after
-      creating it, and the directory before the MANIFEST record of a flushed table -/
-  dirSyncFix : Bool := false
+  /-- the repair of F4 (`fix:` commit in /repo): fsync the directory right after a `.mem` /
+      `.vlog` file has been created (`newMemTable`, `createVlogFile`) and between the msync of a
+      flushed table and its MANIFEST record (`handleMemTableFlush`). `false` = the protocol
+      before the repair, kept for the regression witnesses `C10_counterexample*`. -/
+  dirSyncFix : Bool := true
   deriving DecidableEq, Repr, Inhabited
 
 /-- one output table of a compaction in progress: id, level, content, stage
@@ -205,7 +207,7 @@ def Atom.eff (s : PState) (a : Atom) : PState := if a.guard s then a.rawEff s el
 
 /-! ## programs of the logical steps -/
 
-def fixSync (c : Cfg) (p : Path) : List Atom := if c.dirSyncFix then [.sync p, .syncDir] else []
+def fixSync (c : Cfg) (_p : Path) : List Atom := if c.dirSyncFix then [.syncDir] else []
 
 /-- `valueLog.write`, the part for one request holding the transaction `t`: the stores and,
     after the request, `toDisk` (rotation when the file has enough entries) -/
